@@ -65,7 +65,7 @@ def dicts(seed=0):
 
 
 def objects(seed=0):
-    return [None, D('2'), '3', 'x', date(2020, 1, 1), True, 5]
+    return [None, D('2.5'), '3', '7.5', 'x', '2020-01-31', date(2020, 1, 1), True, 5]
 
 
 REGEXES = ['a', '^b', 'B', '', 'a|x', '.']
